@@ -47,6 +47,7 @@ CONSTANTS
     MaxEdits,       \* edits (each followed by a Reload) per behaviour
     Dev_StaleCfgSnapshot,       \* TRUE: the numprocesses-only branch does not refresh w._cfg (arbiter.py:383-387)
     Dev_DiffIgnoresAddedKeys,   \* TRUE: DictDiffer.changed() looks at keys present on BOTH sides only (util.py:1007)
+    Compound,       \* TRUE: one revision may also change two keys / two sections at once (EditTwo, EditBoth)
     EmitHist        \* TRUE: completed behaviours are printed as JSON for the replay on the real arbiter
 
 Names   == {NameSeq[i] : i \in 1..Len(NameSeq)}
@@ -269,12 +270,26 @@ EditField(n, k, v) ==
     /\ Present(file[n])
     /\ file[n][k] # v
     /\ DoEdit([file EXCEPT ![n][k] = v], [NoEd EXCEPT !.op = "set", !.n = n, !.k = k, !.v = v])
+\* one revision of the file changes numprocesses AND another key of the same section (the cheap set_numprocesses
+\* path must not swallow the other change) ...
+EditTwo(n, v, k, w) ==
+    /\ Compound /\ Present(file[n])
+    /\ k # "np" /\ file[n].np # v /\ file[n][k] # w
+    /\ DoEdit([file EXCEPT ![n].np = v, ![n][k] = w], [NoEd EXCEPT !.op = "set2", !.n = n, !.k = k, !.v = w])
+\* ... or touches two sections at once (each watcher is disturbed by its own change only)
+EditBoth(n, k, v, m, j, w) ==
+    /\ Compound /\ n # m /\ Present(file[n]) /\ Present(file[m])
+    /\ file[n][k] # v /\ file[m][j] # w
+    /\ DoEdit([file EXCEPT ![n][k] = v, ![m][j] = w], [NoEd EXCEPT !.op = "both", !.n = n, !.k = k, !.v = v])
 EditTouch == DoEdit(file, NoEd)         \* the file is rewritten unchanged
 
 Edit ==
     \/ \E n \in Names : \E r \in AddRecs : EditAdd(n, r)
     \/ \E n \in Names : EditRemove(n)
     \/ \E n \in Names : \E k \in Fields : \E v \in Dom(k) : EditField(n, k, v)
+    \/ \E n \in Names : \E v \in Dom("np") : \E k \in Fields : \E w \in Dom(k) : EditTwo(n, v, k, w)
+    \/ \E n, m \in Names : \E k, j \in Fields : \E v \in Dom(k) : \E w \in Dom(j) :
+          Index(n) < Index(m) /\ EditBoth(n, k, v, m, j, w)
     \/ EditTouch
 
 WhyAfter(n, sn, np) ==     \* Why(n) on the primed state
